@@ -609,9 +609,14 @@ func (cfg *Config) handshakeMaintenance(ctx context.Context, hello *tls.ClientHe
 				zap.Time("next_update", cert.ocsp.NextUpdate))
 		}
 
-		// our copy of cert has the new OCSP staple, so replace it in the cache
+		// our copy of cert has the new OCSP staple, so replace it in the cache,
+		// but only if it is still there: if it was removed, replaced or evicted
+		// while we were stapling, writing it back would resurrect it without
+		// its name index entries and possibly beyond the cache's capacity
 		cfg.certCache.mu.Lock()
-		cfg.certCache.cache[cert.hash] = cert
+		if _, ok := cfg.certCache.cache[cert.hash]; ok {
+			cfg.certCache.cache[cert.hash] = cert
+		}
 		cfg.certCache.mu.Unlock()
 	}
 
